@@ -189,6 +189,13 @@ def make_args(rng, kinds):
             spec[k] = gen.random_pda(rng)
         elif k == 'pda_small':
             spec[k] = gen.random_pda(rng, nmax=2, tmax=3)
+            if rng.random() < 0.3:
+                # already in the normal form pda_to_cfg works on: push/pop moves only, at most one accepting state (none, too)
+                P = spec[k]
+                e = P['eps']
+                P['delta'] = [[p_, a, u, [t for t in T if (u == e) != (t[1] == e)]] for p_, a, u, T in P['delta']]
+                P['delta'] = [row for row in P['delta'] if row[3]]
+                P['F'] = rng.choice([[], [], P['F'][:1]])
         elif k == 'tm':
             spec[k] = gen.random_tm(rng)
         elif k == 'cfg':
